@@ -175,13 +175,33 @@ def leanchecker(modules, timeout=3600):
 # driver
 
 
+_DRIVER_SNAPSHOT = None
+
+
+def driver_snapshot():
+    """a private copy of the driver binary (taken under the build lock): other checks may relink
+    the shared one at any time"""
+    global _DRIVER_SNAPSHOT
+    if _DRIVER_SNAPSHOT and os.path.exists(_DRIVER_SNAPSHOT):
+        return _DRIVER_SNAPSHOT
+    with _Lock():
+        if not os.path.exists(DRIVER):
+            raise InfraError("driver binary missing: " + DRIVER)
+        d = tempfile.mkdtemp(prefix="nixdriver-")
+        dst = os.path.join(d, "nixdriver")
+        shutil.copy2(DRIVER, dst)
+    import atexit
+    atexit.register(shutil.rmtree, d, True)
+    _DRIVER_SNAPSHOT = dst
+    return dst
+
+
 def run_driver(prop, cases, timeout=1800):
     """pipe JSON-able cases to `nixdriver <prop>`; returns the parsed output per case"""
-    if not os.path.exists(DRIVER):
-        raise InfraError("driver binary missing: " + DRIVER)
+    drv = driver_snapshot()
     data = "".join(json.dumps(c, ensure_ascii=True) + "\n" for c in cases)
     try:
-        p = subprocess.run([DRIVER, prop], input=data, stdout=subprocess.PIPE, stderr=subprocess.PIPE,
+        p = subprocess.run([drv, prop], input=data, stdout=subprocess.PIPE, stderr=subprocess.PIPE,
                            text=True, timeout=timeout)
     except subprocess.TimeoutExpired:
         raise InfraError("model driver timed out")
